@@ -10,6 +10,10 @@ CHECKS = {
          "Generated well-formed records are pushed through every real encoder/decoder pair (dsstate protobuf, state snapshot codec, gorpc/raft msgpack handle incl. raft.LogOp, encoding/json, query strings) and compared by the harness's own reflective comparator up to the documented lossy fields; each decoder is also fed random, mutated and structure-aware hostile documents and must return an error or a re-encodable value, never panic. Held = on every generated input of the run; not a proof over all inputs.",
          "Trusted: the comparator in harness/mon/deepeq.go, the generators' notion of well-formed, the Go runtime's panic reporting. Inputs carrying msgpack 32-bit length markers are skipped (the ugorji decoder pre-allocates gigabytes for them; resource use, not a crash).",
          "DESIGN.md §4 C08"),
+ "C15": ("exploration", "runtime per-setting perturbation monitor: real LoadJSON/ToJSON/Validate/ApplyEnvVars/ToDisplayJSON of all 14 sections and config.Manager, oracles = validate-after-load, save/load fixed point, injectivity of accepted values, planted-secret scan",
+         "Every JSON leaf of every component section (plus the keys elided at default) is set to pairs of semantically different well-formed values, alone, combined with a second leaf, inside a full file through config.Manager (saved to and loaded from disk) and through environment variables. An accepted document must validate and be a fixed point of save->load->save; two accepted documents differing in one non-zero setting must save differently (catches settings dropped on load or on save, or replaced by the default); malformed/zero values may be refused but never panic; display forms never contain planted secrets.",
+         "Sections are compared via their own ToJSON text; a field neither loaded nor saved is invisible. Env var names are derived from JSON keys; ineffective names are counted, not judged. The value ranges a section should accept are not specified by the property, so a weakened Validate() is only seen through Default()/fixed-point effects.",
+         "DESIGN.md §4 C15"),
 }
 
 ALL = ["C%02d" % i for i in range(1, 19)]
